@@ -17,7 +17,9 @@ RULE = ("operation histories over {get, slice, iter, append, extend, insert, pop
         "construct-from-list, copy, Empty, Alloc and rejected (other-class / multi-valued / out-of-range) operations} "
         "interpreted on the object and on a Python list of distinct tagged element arrays; compared after every step. "
         "Non-trivial: the history has a mutation followed by a slice or negative index, or reaches length 0, or contains "
-        "a rejected operation; distinct = distinct JSON case (class, start, op list).")
+        "a rejected operation; distinct = distinct JSON case (class, start, op list). Histories come from a Hypothesis "
+        "RuleBasedStateMachine (sub-check 'machine': one rule per operation, oracle after every step - each prefix counts "
+        "as one evaluation), from a list-of-operations strategy, and from exhaustive enumeration of short sequences.")
 ASSUMPTIONS = [
     "elements are distinct valid values generated per class from integer tags (no library constructor involved)",
     "UnitQuaternion elements compared to 1e-12 (constructor re-normalises), all others bit-exact",
@@ -443,6 +445,28 @@ def op_strategy():
     )
 
 
+def machine_spec():
+    """stateful (RuleBasedStateMachine) form of the same histories: one rule per list operation, arguments generated
+    per rule; the runner appends each fired rule to the op list and runs the oracle on the history so far"""
+    rules = {
+        "get": st.tuples(st.just("get"), IDX).map(list),
+        "slice": st.tuples(st.just("slice"), OPTIDX, OPTIDX, STEP).map(list),
+        "iter": st.just(["iter"]), "append": st.just(["append"]),
+        "extend": st.tuples(st.just("extend"), st.integers(0, 3)).map(list),
+        "insert": st.tuples(st.just("insert"), IDX).map(list),
+        "pop": st.tuples(st.just("pop"), OPTIDX).map(list),
+        "del": st.tuples(st.just("del"), IDX).map(list),
+        "set": st.tuples(st.just("set"), IDX).map(list),
+        "reverse": st.just(["reverse"]), "clear": st.just(["clear"]), "ctor_list": st.just(["ctor_list"]), "copy": st.just(["copy"]),
+    }
+    for nm in ("append_other", "append_multi", "extend_other", "append_array", "ctor_list_other", "ctor_list_other_first"):
+        rules[nm] = st.just([nm])
+    for nm in ("insert_other", "insert_multi", "set_other", "set_multi"):
+        rules[nm] = st.tuples(st.just(nm), IDX).map(list)
+    init = st.fixed_dictionaries({"kind": st.just("ops"), "cls": st.sampled_from(CLASSES), "start": start_strategy()})
+    return {"init": init, "key": "ops", "rules": rules}
+
+
 def start_strategy():
     return st.one_of(st.tuples(st.just("alloc"), st.integers(0, 4)), st.tuples(st.just("list"), st.integers(1, 4)),
                      st.tuples(st.just("loose"), st.integers(1, 4)),
@@ -508,4 +532,5 @@ def subchecks(tier):
         Sub("indices", gen=gen_indices, shards=(4, 8)),
         Sub("sequences", gen=gen_sequences, shards=(16, 16)),
         Sub("histories", strategy=history_strategy(30 if tier == "quick" else 60), n=(400, 6000), shards=(8, 16)),
+        Sub("machine", machine=machine_spec, n=(60, 1500), shards=(8, 16), steps=(25, 50)),
     ]
